@@ -4,8 +4,8 @@ initialiser).  A refactoring that only renames a parameter or a local must not c
 run, a name of the current tree that the reference does not know is mapped back to the reference name it stands for:
 
   * parameters by position (same count, same types - the function id already fixes the types);
-  * a local to the one reference local that is missing from the current function and has the same type and, after the
-    mapping found so far, textually the same initialiser.  A local without initialiser is mapped only if it is the only
+  * a local to the reference local that is missing from the current function and has the same type and, after the
+    mapping found so far, textually the same initialiser (several such twins are paired in declaration order).  A local without initialiser is mapped only if it is the only
     unknown local of its type and exactly one reference local of that type is missing.
 
 Nothing is mapped when the declaration differs in type or initialiser (`const bool force = ...("generator")` does not
@@ -88,7 +88,9 @@ def mapping_for(F, R):
             cands = [l for l in missing if l[1] == ty and l[2] is None]
             if len([u for u in unknown if u.get('ty', '') == ty and u.get('init') is None]) != 1:
                 cands = []
-        if len(cands) == 1:
+        # several missing locals with the same type and initialiser (the same helper variable declared in several
+        # scopes: `int len = (int)(in - start)` three times): they are interchangeable, pair them in declaration order
+        if len(cands) == 1 or (len(cands) > 1 and e.get('init') is not None):
             ren[e['n']] = cands[0][0]
             missing.remove(cands[0])
     return ren
